@@ -239,10 +239,13 @@ def run_real(unit, inputs):
     """run the concrete harness on the real library. returns (failed labels, exc, observation)"""
     cx = ConcreteEx(inputs)
     try:
-        obs = unit.real(cx)
+        with core.watchdog(60):
+            obs = unit.real(cx)
         return cx.failed, None, obs, cx
     except PathAbort:
         return [], "PathAbort", None, cx
+    except core.PathTimeout:
+        return cx.failed, ("Timeout", "the real library did not return within 60 s on these inputs (endless loop?)"), None, cx
     except Exception as e:
         return cx.failed, (type(e).__name__, _b.str(e)[:200]), None, cx
 
